@@ -284,4 +284,131 @@ theorem ckksSquare_fallback (l : Level) (a : Ct) (hn : a.ntt = true) (hs : a.pol
   unfold ckksSquare
   rw [if_neg (by simp [hn]), if_pos hs]
 
+/-! ### `ckks_square` -/
+
+/-- the fast path of the generated `ckks_square` on a buffer of two polynomial blocks `e0 ++ e1`: IN PLACE, in the order of the code
+    (`c2 = c1·c1`, `c1 = c0·c1`, `c1 += c1`, `c0 = c0·c0`), then the scale bookkeeping (product recorded, verdict `okProd`) -/
+theorem gs_ckks_square_core (l : Level) (e0 e1 : List Nat) (okOwn okProd o3 o4 : Bool) (h0 : e0.length = l.size * l.n)
+    (h1 : e1.length = l.size * l.n) (hk : 1 ≤ l.size) (hB : 3 * (l.size * l.n) < B64) :
+    GenC.ct_ckks_square (e0 ++ e1) 2 true l.qs.toList l.n okOwn okProd o3 o4 = (do
+      let d2 ← rnsDyadic l (unflattenRns l.size l.n e1) (unflattenRns l.size l.n e1)
+      let m ← rnsDyadic l (unflattenRns l.size l.n e0) (unflattenRns l.size l.n e1)
+      let d1 ← rnsAdd l m m
+      let d0 ← rnsDyadic l (unflattenRns l.size l.n e0) (unflattenRns l.size l.n e0)
+      if okProd = true then pure (flattenRns l.size l.n d0 ++ flattenRns l.size l.n d1 ++ flattenRns l.size l.n d2, 3, 1, 0)
+      else .error .refused) := by
+  have hlen : l.qs.toList.length = l.size := by simp [Level.size]
+  have hPD : l.n * l.size = l.size * l.n := Nat.mul_comm _ _
+  generalize hD : l.size * l.n = D at *
+  have hn : l.n ≤ D := by rw [← hD]; exact Nat.le_mul_of_pos_left _ hk
+  let Z := List.replicate D 0
+  have hZ : Z.length = D := by simp [Z]
+  unfold GenC.ct_ckks_square
+  simp only [hlen, not_true_eq_false, if_false, ne_eq]
+  have a1 : ckAdd 2 2 = .ok 4 := gs_ckAdd 2 2 (by simp [B64])
+  have a2 : ckSub 4 1 = .ok 3 := by unfold ckSub; rw [if_pos (by omega)]
+  have a3 : ckMul 3 l.n = .ok (3 * l.n) := gs_ckMul _ _ (by omega)
+  have a4 : ckMul (3 * l.n) l.size = .ok (3 * D) := by rw [gs_ckMul _ _ (by rw [Nat.mul_assoc, hPD]; omega), Nat.mul_assoc, hPD]
+  have a5 : ckMul l.n l.size = .ok D := by rw [gs_ckMul _ _ (by rw [hPD]; omega), hPD]
+  have a6 : ckMul 0 D = .ok 0 := by rw [gs_ckMul _ _ (by simp [B64])]; simp
+  have a7 : ckMul 1 D = .ok D := by rw [gs_ckMul _ _ (by omega)]; simp
+  have a8 : ckMul 2 D = .ok (2 * D) := gs_ckMul _ _ (by omega)
+  have a9 : ckAdd 0 D = .ok D := by rw [gs_ckAdd _ _ (by omega)]; simp
+  have a10 : ckAdd D D = .ok (D + D) := gs_ckAdd _ _ (by omega)
+  have a11 : ckAdd (2 * D) D = .ok (2 * D + D) := gs_ckAdd _ _ (by omega)
+  have a12 : ckAdd 0 1 = .ok 1 := gs_ckAdd _ _ (by simp [B64])
+  have hres : GenC.resizeL (e0 ++ e1) (3 * D) 0 = e0 ++ e1 ++ Z := by
+    rw [gt_resizeL_grow _ _ (by simp [h0, h1]; omega)]
+    congr 2
+    simp [h0, h1]; omega
+  simp only [a1, a2, a3, a4, a5, a6, a7, a8, a9, a10, a11, a12, gy_ok_bind, hres]
+  rw [if_pos (by omega)]
+  have hfl : ∀ p : RnsPoly, (flattenRns l.size l.n p).length = D := fun p => by rw [gt_flattenRns_length, hD]
+  have k (x y r : List Nat) (hr : r.length = D) (hx : x.length = D) (hy : y.length = D) :=
+    gs_poly_dyadic_product_p_model l x y r (by rw [hD]; exact hr) (by rw [hD]; omega) (by rw [hD]; omega) (by omega)
+  rw [gs_slice_mid e0 e1 Z D (D + D) h0.symm (by omega)]
+  simp only [gy_ok_bind]
+  rw [gs_slice_tail (e0 ++ e1) Z (2 * D) (2 * D + D) (by rw [List.length_append]; omega) (by rw [List.length_append]; omega)]
+  simp only [gy_ok_bind, k e1 e1 Z hZ h1 h1]
+  cases hd2 : rnsDyadic l (unflattenRns l.size l.n e1) (unflattenRns l.size l.n e1) with
+  | error e => rfl
+  | ok d2 =>
+    simp only [Except.map, gy_ok_bind]
+    rw [gs_splice_tail (e0 ++ e1) Z _ (2 * D) (by rw [List.length_append]; omega) (by rw [hfl, hZ])]
+    rw [gs_slice_head e0 e1 _ D h0.symm, gs_slice_mid e0 e1 _ D (D + D) h0.symm (by omega)]
+    simp only [gy_ok_bind, k e0 e1 e1 h1 h0 h1]
+    cases hm : rnsDyadic l (unflattenRns l.size l.n e0) (unflattenRns l.size l.n e1) with
+    | error e => rfl
+    | ok m =>
+      simp only [Except.map, gy_ok_bind]
+      rw [gs_splice_mid e0 e1 _ _ D h0.symm (by rw [hfl, h1])]
+      rw [gs_slice_mid e0 (flattenRns l.size l.n m) _ D (D + D) h0.symm (by rw [hfl]; omega)]
+      simp only [gy_ok_bind]
+      have hmshape := gs_rnsZip_shape l _ _ _ _ hm
+      have hum : unflattenRns l.size l.n (flattenRns l.size l.n m) = m :=
+        gt_unflatten_flatten _ _ _ hmshape.1 (fun j hj => by rw [hmshape.2 j hj]; exact (gs_unflatten_shape _ _ _).2 j hj)
+      rw [gp_poly_add_inplace_p_model l _ _ (by rw [hfl, hD]) (by rw [hfl, hD]) (by rw [hfl]; omega), hum]
+      cases hd1 : rnsAdd l m m with
+      | error e => rfl
+      | ok d1 =>
+        simp only [Except.map, gy_ok_bind]
+        rw [gs_splice_mid e0 (flattenRns l.size l.n m) _ _ D h0.symm (by rw [hfl, hfl])]
+        rw [gs_slice_head e0 _ _ D h0.symm]
+        simp only [gy_ok_bind, k e0 e0 e0 h0 h0 h0]
+        cases hd0 : rnsDyadic l (unflattenRns l.size l.n e0) (unflattenRns l.size l.n e0) with
+        | error e => rfl
+        | ok d0 =>
+          simp only [Except.map, gy_ok_bind]
+          rw [gs_splice_head e0 _ _ _ (by rw [hfl, h0])]
+          cases okProd <;> simp [pure, Except.pure]
+
+/-- GENERATED = MODEL (`ckks_square`, fast path): the flattened `ckksSquare` of the model, then the bookkeeping of a ciphertext product
+    (`ckksProductBookkeeping`: size 2 + 2 − 1, one product recorded, verdict about the PRODUCT scale at the operand's level) -/
+theorem gs_ckks_square_eq (l : Level) (d : List Nat) (cf : Nat) (okOwn okProd o3 o4 : Bool) (hd : d.length = 2 * (l.size * l.n))
+    (hk : 1 ≤ l.size) (hB : 3 * (l.size * l.n) < B64) :
+    GenC.ct_ckks_square d 2 true l.qs.toList l.n okOwn okProd o3 o4 = (do
+      let c ← ckksSquare l (unflattenCt l 2 d true cf)
+      let b ← ckksProductBookkeeping true true 2 2 okProd
+      pure (flattenCt l c, b.1, b.2, 0)) := by
+  obtain ⟨hsplit, h0, h1⟩ := gs_split2 (l.size * l.n) d hd
+  have hcore := gs_ckks_square_core l _ _ okOwn okProd o3 o4 h0 h1 hk hB
+  rw [← hsplit] at hcore
+  rw [hcore]
+  unfold ckksSquare
+  have hntt : (unflattenCt l 2 d true cf).ntt = true := rfl
+  simp only [hntt, gc_polys_size, gc_polys_getD l 2 d true cf 0 (by omega), gc_polys_getD l 2 d true cf 1 (by omega),
+    Bool.not_true, Bool.false_eq_true, if_false, ne_eq, not_true_eq_false]
+  rw [if_neg (by decide)]
+  have hbk : ckksProductBookkeeping true true 2 2 okProd = if okProd = true then .ok (3, 1) else .error .refused := by
+    unfold ckksProductBookkeeping
+    rw [if_neg (by simp), if_neg (by decide)]
+    cases okProd <;> rfl
+  rw [hbk]
+  cases rnsDyadic l (unflattenRns l.size l.n (gp_blk (l.size * l.n) d 1)) (unflattenRns l.size l.n (gp_blk (l.size * l.n) d 1)) with
+  | error e => rfl
+  | ok d2 =>
+    simp only [gy_ok_bind]
+    cases rnsDyadic l (unflattenRns l.size l.n (gp_blk (l.size * l.n) d 0)) (unflattenRns l.size l.n (gp_blk (l.size * l.n) d 1)) with
+    | error e => rfl
+    | ok m =>
+      simp only [gy_ok_bind]
+      cases rnsAdd l m m with
+      | error e => rfl
+      | ok d1 =>
+        simp only [gy_ok_bind]
+        cases rnsDyadic l (unflattenRns l.size l.n (gp_blk (l.size * l.n) d 0)) (unflattenRns l.size l.n (gp_blk (l.size * l.n) d 0)) with
+        | error e => rfl
+        | ok d0 =>
+          cases okProd <;>
+            simp [gy_ok_bind, pure, Except.pure, bind, Except.bind, flattenCt]
+
+theorem gs_ckks_square_dispatch (d : List Nat) (size : Nat) (ntt : Bool) (mods : List Modulus) (n : Nat) (o1 o2 o3 o4 : Bool) :
+    GenC.ct_ckks_square d size ntt mods n o1 o2 o3 o4 =
+      if ntt = false then .error .refused else if size ≠ 2 then .ok (d, size, 0, 1) else GenC.ct_ckks_square d 2 true mods n o1 o2 o3 o4 := by
+  cases ntt
+  · unfold GenC.ct_ckks_square; simp
+  · by_cases hs : size = 2
+    · subst hs; simp
+    · unfold GenC.ct_ckks_square; simp [hs, pure, Except.pure]
+
 end HC
